@@ -68,6 +68,12 @@ def make_case(args):
         rng.shuffle(dims)
         da = da.transpose(*dims)
     lead = [d for d in da.dims if d not in ("freq", "dir")]
+    if lead and rng.random() < 0.3:
+        # float32 data whose spectral dimensions are the SLOWEST in memory (an array assembled as (freq, dir, time…) and viewed in
+        # the dataset's dimension order): the (freq, dir) block of one position is a strided view that needs no dtype conversion
+        order = ["freq", "dir"] + lead
+        buf = np.ascontiguousarray(da.transpose(*order).values.astype("float32"))
+        da = xr.DataArray(buf, dims=order, coords=da.coords, attrs=da.attrs, name=da.name).transpose(*da.dims)
     def auxarr(lo, hi):
         return xr.DataArray(np.array([rng.uniform(lo, hi) for _ in range(npos)]).reshape(tuple(da.sizes[d] for d in lead)), dims=lead,
                             coords={d: da[d] for d in lead})
